@@ -71,22 +71,15 @@ def run(ctx):
             if r.id in reach and r is not cb:
                 bad.append("raise at line %d is reachable after the callback "
                            "at line %d" % (r.lineno, cb.lineno))
-    # every raise dominates... i.e. each path entry -> first callback passes
-    # the false branch of both `if n in d` (duplicate) and `if L` (missing)
-    dom = g.dominators()
-    tests_ok = []
-    for cb in cb_nodes:
-        conds = g.path_conditions(cb)
-        txt = {(src(t.ast), pol) for t, pol in conds}
-        missing = [c for c in txt if c[0] == "L" and c[1] is False]
-        tests_ok.append(bool(missing))
-    run.check(not bad and all(tests_ok) and len(raises) >= 2, "C16.R1",
+    # If no raise can follow a callback, then whenever __call__ raises no
+    # callback has run: that is the whole of "all or nothing" at CFG level
+    # (that missing and duplicate names *are* detected is R2).
+    run.check(not bad and len(raises) >= 2, "C16.R1",
               call.qualname, "validate everything, then call",
-              "%d raise statements, none reachable from a callback "
-              "invocation; the callback loop is entered only when the "
-              "missing-name list is empty" % len(raises),
-              "; ".join(bad) or "the callback loop is not guarded by the "
-              "missing-handler test", loc=m.loc(call, call.node))
+              "%d raise statements, none reachable from any of the %d "
+              "callback invocation nodes" % (len(raises), len(cb_nodes)),
+              "; ".join(bad) or "fewer than two validation raises",
+              loc=m.loc(call, call.node))
 
     crosscheck(ctx, "C16.R2", CH + ".__call__", REF, "composite_call", CH,
                "convert names, refuse duplicates, collect missing, call "
